@@ -11,19 +11,25 @@ CLAIMED = {
              "plays each back through the API seam, and one each through the real PULP_CBC_CMD and HiGHS_CMD "
              "wrappers with a simulated solver process, plus the real CBC binary on a sample; an independent "
              "exact optimiser over proper level assignments judges the returned notation. Includes every "
-             "matching on <= 8 (quick) / <= 10 (thorough) positions. Evidence, not proof: inputs are sampled.",
+             "matching on <= 8 (quick) / <= 10 (thorough) positions and every nesting/crossing topology of <= 4 / <= 5 "
+             "stems; near-ladders whose optimum needs two-digit levels (real CBC); molecules of up to 110 stems; histories "
+             "on one object and after an earlier failure in the same process; simulated solvers that use a gap tolerance "
+             "when the code requests one. Evidence, not proof: inputs are sampled.",
         design_ref="DESIGN.md section 3 (C02), 2.3-2.5",
         note="Trusted: the reference optimiser and the exact 0-1 solver in /verif/sim (cross-checked against the "
-             "real CBC binary on every run), pulp 3.1.1 as installed. Bounded to <= 9 stems per structure.",
+             "real CBC binary on every run, per solve, by optimal value), pulp 3.1.1 as installed. The exact oracle is "
+             "bounded by the size of one connected component of the conflict graph (about 13 mutually crossing stems).",
         technique="deterministic simulation: solver tie-break and back-end behind a seam, seeded search, reference-model oracle",
     ),
     "C12": dict(
         category="exploration",
-        text="Seeded call histories (<= 5 quick, <= 8 thorough) over a pool of live BpSeq objects that may alias "
+        text="Seeded call histories (<= 6 quick, <= 8 thorough) over a pool of live BpSeq objects that may alias "
              "each other, checked step by step against fresh objects built from each object's birth triples "
              "(refinement against a trivial reference model), with frame checks on every pool member after "
              "every step, independent spec clauses for every query and both removals (never re-running the code "
-             "under test), sibling originals with the same sequence or the same pairs, and every run in a forked child.",
+             "under test), sibling originals with the same sequence or the same pairs, objects rebuilt from an answer of another object, "
+             "and every run in a forked child. A separate fault-injecting configuration (solver failures inside calls) "
+             "judges purity proper under faults with a narrowly relaxed oracle.",
         design_ref="DESIGN.md section 3 (C12)",
         note="Trusted: the reference decoders in /verif/sim/oracles.py. Call sequences, not threads: the library "
              "promises no thread safety and the property quantifies over histories.",
@@ -36,11 +42,13 @@ CLAIMED = {
              "status with untouched / partial / full stale values; real CBC wrapper with simulated process: not "
              "executable, exit code, missing solution file, Infeasible, Integer infeasible, Unbounded, Stopped "
              "with/without incumbent, unknown status word; real HiGHS wrapper likewise; no solver at all; real "
-             "CBC binary) is enumerated for each seeded knotted structure, through both BpSeq.dot_bracket "
+             "CBC binary; HiGHS vanishing between look-up and execution; fail-once-then-work plans; three shapes of the "
+             "exception; a second back-end with its own behaviour in the default-solver slot) is enumerated for each seeded knotted structure, through both BpSeq.dot_bracket "
              "(solver selection code) and convert_to_dot_bracket(solver); plus seeded histories of 1-12 solves "
              "in one simulated world (one process, persistent solver objects) with independent faults and every consumer "
              "of the notation: elements, both removals, Mapping2D3D.dot_bracket / extended_dot_bracket and "
-             "annotator.extract_secondary_structure on the knotted corpus structures.",
+             "annotator.extract_secondary_structure on the knotted corpus structures (every extended row must encode "
+             "the pairs it encodes in a healthy world).",
         design_ref="DESIGN.md section 3 (C13), 2.4",
         note="Trusted: pulp 3.1.1 wrappers as installed; simulated CBC/HiGHS output formats are as faithful as "
              "pulp's readers require; the HiGHS binary is always the stub. Structures and histories sampled.",
@@ -50,7 +58,9 @@ CLAIMED = {
         category="exploration",
         text="The interpreter is the nondeterminism source: fresh interpreters under different PYTHONHASHSEED values "
              "(12 quick / 48 thorough incl. 'random' on the whole workload, 16 / 80 more on its light part) each compute "
-             "every output kind for the corpus, the package's other command-line tools and generated structures twice "
+             "every output kind for the corpus, the package's other command-line tools, generated structures, the adapter on "
+             "generated conflicting annotations, library-level writers and derived PDB inputs (alternate locations, twin "
+             "chains, insertion codes, models) twice "
              "in-process, each interpreter visiting its items in its own seeded order; all digests of one (input, "
              "output kind) must agree. Differences that need what ran before in the process are replayed as whole "
              "interpreter contexts.",
